@@ -672,6 +672,12 @@ pub fn selftest_worker(scn: &dyn Scenario, base_seed: u64, wid: u64, nworkers: u
         let digest = |r: &RunResult| {
             fnv1a(format!("{}|{:?}|{:?}|{:?}|{:?}", r.outcome.log_hash, r.outcome.violations, r.outcome.counters, r.outcome.schedule, r.crash).as_bytes())
         };
+        if digest(&r1) != digest(&r2) {
+            let _ = std::fs::write(
+                format!("/dev/shm/dsim/selftest-mismatch-{}-{}-{idx}.json", scn.property(), scn.name()),
+                serde_json::to_vec(&json!({"first": r1.outcome, "second": r2.outcome, "crash": [r1.crash, r2.crash]})).unwrap(),
+            );
+        }
         lines.push_str(&format!("{idx} {} {} {}\n", digest(&r1), digest(&r2), (p1 == p2) as u8));
         idx += nworkers;
     }
